@@ -20,6 +20,21 @@ from .base import RunResult, Violation, exc_name, innermost_cirbo_frame, is_inst
 MAXPOP = 4
 MAX_GATES = 60
 MAX_INPUTS_TT = 10
+# beyond MAX_INPUTS_TT inputs the truth table is sampled: 512 fixed pseudo-random rows, the i-th input (by position)
+# always gets the same column, so two circuits with the same number of inputs are compared on the same rows
+SAMPLE_ROWS = 512
+SAMPLE_MASK = (1 << SAMPLE_ROWS) - 1
+_SAMPLE_COLS = [__import__('random').Random(7919 + i).getrandbits(SAMPLE_ROWS) for i in range(96)]
+
+
+def positional_assign(inputs):
+    """(assignment, mask): all 2^n rows up to MAX_INPUTS_TT inputs, SAMPLE_ROWS fixed rows up to 96 inputs, else None."""
+    n = len(inputs)
+    if n <= MAX_INPUTS_TT:
+        return {x: var_lanes(i, n) for i, x in enumerate(inputs)}, (1 << (1 << n)) - 1
+    if n <= len(_SAMPLE_COLS):
+        return {x: _SAMPLE_COLS[i] for i, x in enumerate(inputs)}, SAMPLE_MASK
+    return None, None
 
 CIRCUIT_ERRORS = ('CircuitError',)
 
@@ -393,10 +408,17 @@ class Hist:
         self.res.stats.probes.bump('argument-lists-scribbled')
 
     def tt_of(self, net: Net):
-        if len(net.inputs) > MAX_INPUTS_TT:
+        """Output columns over all rows (few inputs) or over the fixed sample of rows (many inputs)."""
+        if len(set(net.inputs)) != len(net.inputs):
+            return None
+        assign, mask = positional_assign(net.inputs)
+        if assign is None:
             return None
         try:
-            return net.tt()
+            v = net.lanes(assign, mask, only=net.outputs)
+            if len(net.inputs) > MAX_INPUTS_TT:
+                self.res.stats.probes.bump('function-compared-on-sampled-rows')
+            return [v[o] for o in net.outputs]
         except ModelError:
             return None
 
@@ -728,19 +750,18 @@ class Hist:
         exp_inputs = [x for x in pre.inputs if x not in chosen]
         if now.inputs != exp_inputs:
             self.violate('C19', 'cofactor', 'inputs', f'{now.inputs} vs remaining inputs {exp_inputs}')
-        elif len(pre.inputs) <= MAX_INPUTS_TT and now.outputs == pre.outputs:
+        elif len(pre.inputs) <= 96 and now.outputs == pre.outputs:
             # the cofactor, computed by the model on the *old* netlist over the remaining inputs
-            n = len(exp_inputs)
-            mask = (1 << (1 << n)) - 1
-            assign = {x: var_lanes(i, n) for i, x in enumerate(exp_inputs)}
+            assign, mask = positional_assign(exp_inputs)
+            assign = dict(assign)
             for x in to_true:
                 assign[x] = mask
             for x in to_false:
                 assign[x] = 0
             try:
                 want = pre.lanes(assign, mask, only=pre.outputs)
-                got = now.tt()
-                if got != [want[o] for o in pre.outputs]:
+                got = self.tt_of(now)
+                if got is not None and got != [want[o] for o in pre.outputs]:
                     self.violate('C19', 'cofactor', 'truth-table', 'result is not the cofactor over the remaining inputs')
             except ModelError:
                 pass
@@ -1035,7 +1056,9 @@ class Hist:
             self.violate('C10', 'interface', f'outputs:{"right" if right else "left"}', f'{now.outputs} vs documented {exp["outputs"]}')
         elif exp.get('out_lanes') is not None:
             try:
-                got = now.tt()
+                na, nmask = positional_assign(now.inputs)
+                nv = now.lanes(na, nmask, only=now.outputs)
+                got = [nv[o] for o in now.outputs]
                 if got != exp['out_lanes']:
                     bad = [i for i, (x, y) in enumerate(zip(got, exp['out_lanes'])) if x != y]
                     self.violate('C10', 'function', f'{"right" if right else "left"}', f'outputs {bad} do not compute the composition')
@@ -1136,12 +1159,10 @@ class Hist:
         else:
             exp['inputs'] = list(b.inputs) + [m[x] for x in o.inputs if x not in other_conn]
         ins = exp['inputs']
-        if len(ins) > MAX_INPUTS_TT or exp['valid'] is None or (len(set(ins)) != len(ins) and why is None):
+        if len(ins) > 96 or exp['valid'] is None or (len(set(ins)) != len(ins) and why is None) or len(set(ins)) != len(ins):
             exp['out_lanes'] = None
             return exp
-        n = len(ins)
-        mask = (1 << (1 << n)) - 1
-        var = {x: var_lanes(i, n) for i, x in enumerate(ins)}
+        var, mask = positional_assign(ins)
         try:
             if right:
                 # the attached circuit is evaluated first; connected base inputs read its gates
@@ -1168,7 +1189,7 @@ class Hist:
 
     # ------------------------------------------------------------------ replace_subcircuit (C19)
     def op_replace_subcircuit(self, op, rng):
-        s = self.pick(rng, lambda s: len(s.net.gates) > len(s.net.inputs) and len(s.net.inputs) <= MAX_INPUTS_TT)
+        s = self.pick(rng, lambda s: len(s.net.gates) > len(s.net.inputs) and len(s.net.inputs) <= 96)
         if s is None:
             return
         net = s.net
@@ -1480,12 +1501,17 @@ class Hist:
             self.violate('C14', 'basis', ','.join(left), f'gate types {left} remain after {what}')
         if pre_tt is not None:
             try:
-                if now.tt() != pre_tt:
+                now_tt = self.tt_of(now)
+                if now_tt is None:
+                    raise ModelError('the converted circuit cannot be interpreted')
+                if now_tt != pre_tt:
                     # culprits: rewritten gates whose own function changed although their operands' did not
-                    lp, _ = pre.all_lanes()
-                    ln, _ = now.all_lanes()
-                    cul = sorted({pre.gates[g][0] for g in pre.gates if g in ln and ln[g] != lp[g]
-                                  and all(ln.get(o) == lp.get(o) for o in pre.gates[g][1])})
+                    cul = []
+                    if len(pre.inputs) <= MAX_INPUTS_TT:
+                        lp, _ = pre.all_lanes()
+                        ln, _ = now.all_lanes()
+                        cul = sorted({pre.gates[g][0] for g in pre.gates if g in ln and ln[g] != lp[g]
+                                      and all(ln.get(o) == lp.get(o) for o in pre.gates[g][1])})
                     self.violate('C14', 'truth-table', ','.join(cul)[:60] or 'unknown', f'truth table changed by {what} (gate types at fault: {cul})')
                 else:
                     st.bump('bench-conversion-function-checked')
